@@ -3,6 +3,7 @@ import TTModel.C13_Loader
 import TTGen.C13_LoaderCfg
 import TTProofs.Lemmas.C13_Loader
 import TTProofs.Lemmas.C13_Comments
+import TTProofs.Lemmas.C13_Plates
 /-!
 # C13 — in a model specification every id denotes exactly one shared object
 
@@ -242,6 +243,106 @@ theorem fixed_rejects_duplicate :
       [.obj [("id", .str "a"), ("type", .str "VOne"),
              ("x", .obj [("id", .str "a"), ("type", .str "VLeaf")])]] ⟨[], []⟩) (.duplicate "a") = true := by
   decide +kernel
+
+
+/-! ## plates -/
+
+/-- the clones of a plate over `a:b` (no `var`): one per `i ∈ range(a, b)` — `b − a` of them —
+each the plate's `object` with `replace_star_with_str(·, str(i))` applied -/
+theorem plate_clones_range (kvs : List (String × Json ν)) (r : String) (a b : Int) (o : Json ν)
+    (hr : lookup "range" kvs = some (.str r)) (hpr : parseRange r = some [a, b])
+    (ho : lookup "object" kvs = some o) (hv : lookup "var" kvs = none) :
+    plateClones kvs =
+      .ok ((List.range (b - a).toNat).map fun (i : Nat) => replaceStar (toString (a + (i : Int))) o) := by
+  simp [plateClones, hr, hpr, ho, hv, pyRange, bind, Option.bind]
+
+/-- the same with a `var`: the wildcard `${var}` is substituted in every id -/
+theorem plate_clones_range_var (kvs : List (String × Json ν)) (r var : String) (a b : Int) (o : Json ν)
+    (hr : lookup "range" kvs = some (.str r)) (hpr : parseRange r = some [a, b])
+    (ho : lookup "object" kvs = some o) (hv : lookup "var" kvs = some (.str var)) :
+    plateClones kvs =
+      .ok ((List.range (b - a).toNat).map fun (i : Nat) =>
+        replaceWildcard ("${" ++ var ++ "}") (toString (a + (i : Int))) o) := by
+  simp [plateClones, hr, hpr, ho, hv, pyRange, bind, Option.bind]
+
+/-- the documented id substitution: a trailing `*` is replaced by the index -/
+theorem star_subst (s v : String) : starSubst (s ++ "*") v = s ++ v := by
+  simp [starSubst]
+
+/-- … in the `id` of the cloned object (and, by the same function, of every nested object) -/
+theorem clone_id (v : String) (kvs : List (String × Json ν)) (s : String)
+    (h : lookup "id" kvs = some (.str s)) :
+    lookup "id" (match replaceStar v (.obj kvs) with | .obj kvs' => kvs' | _ => []) =
+      some (.str (starSubst s v)) := by
+  simp only [replaceStar]
+  induction kvs with
+  | nil => simp [lookup] at h
+  | cons e rest ih =>
+    rcases e with ⟨k, x⟩
+    simp only [lookup] at h
+    by_cases hk : k = "id"
+    · simp only [hk, if_true, Option.some.injEq] at h
+      subst h
+      simp [rsFields, lookup, hk, replaceStar]
+    · simp only [hk, if_false] at h
+      simp [rsFields, lookup, hk, ih h]
+
+/-- **plates_expand**: in a list whose other elements (and the clones) contain no plate, a plate
+with a range is replaced, in place, by its clones — nothing else changes.  (`fuel`/`steps` only
+have to exceed the size of the data.) -/
+theorem plates_expand (steps fuel : Nat) (pre post clones : List (Json ν))
+    (kvs : List (String × Json ν))
+    (hp : isPlate kvs = true) (hr : hasKey "range" kvs = true) (hc : plateClones kvs = .ok clones)
+    (hpre : plateFreeList pre = true) (hcl : plateFreeList clones = true)
+    (hpost : plateFreeList post = true)
+    (hsize : nodesList pre + nodesList clones + nodesList post + 2 ≤ min fuel steps) :
+    expandPlatesFuel steps (fuel + 2) (.arr (pre ++ .obj kvs :: post)) =
+      .ok (.arr (pre ++ clones ++ post)) := by
+  have hf := expandPlatesFuel_noop (ν := ν) steps fuel
+  have hlpre := length_le_nodesList pre
+  have hlcl := length_le_nodesList clones
+  have hlpost := length_le_nodesList post
+  have hsteps : nodesList pre + nodesList clones + nodesList post + 2 ≤ steps :=
+    Nat.le_trans hsize (Nat.min_le_right _ _)
+  rw [show expandPlatesFuel steps (fuel + 2) (.arr (pre ++ .obj kvs :: post)) =
+    (expandWalk (expandPlatesFuel steps (fuel + 1)) steps [] (pre ++ .obj kvs :: post)).map .arr from rfl]
+  rw [expandWalk_prefix hf pre steps [] _ hpre (by omega) (by omega)]
+  obtain ⟨n, hn⟩ : ∃ n, steps - pre.length = n + 1 := ⟨steps - pre.length - 1, by omega⟩
+  rw [hn]
+  cases clones with
+  | nil =>
+    cases post with
+    | nil => simp [expandWalk, hp, hr, hc, Except.map]
+    | cons y post' =>
+      simp only [plateFreeList, Bool.and_eq_true] at hpost
+      simp only [nodesList] at hsize hsteps
+      simp only [List.length_cons, nodesList] at hlpost
+      have hy := nodes_pos y
+      have : expandWalk (expandPlatesFuel steps (fuel + 1)) (n + 1) (pre.reverse ++ []) (.obj kvs :: y :: post')
+          = expandWalk (expandPlatesFuel steps (fuel + 1)) n (y :: (pre.reverse ++ [])) post' := by
+        simp [expandWalk, hp, hr, hc]
+      rw [this, expandWalk_plateFree hf post' n _ hpost.2 (by omega) (by omega)]
+      simp [Except.map]
+  | cons c cs =>
+    simp only [plateFreeList, Bool.and_eq_true] at hcl
+    simp only [nodesList] at hsize hsteps
+    simp only [List.length_cons, nodesList] at hlcl
+    have hcpos := nodes_pos c
+    rw [expandWalk_plate _ n _ post kvs c cs hp hr hc,
+      expandWalk_plateFree hf (cs ++ post) n _ (by simp [plateFreeList_append, hcl.2, hpost])
+        (by rw [nodesList_append]; omega) (by simp; omega)]
+    simp [Except.map]
+
+/-- non-vacuity: `[x, Plate(0:2, {id: p*}), y]` ↦ `[x, {id: p0}, {id: p1}, y]` -/
+example : (match expandPlatesFuel (ν := Unit) 100 100
+    (.arr [.str "x", .obj [("type", .str "Plate"), ("range", .str "0:2"),
+                           ("object", .obj [("id", .str "p*"), ("type", .str "VLeaf")])], .str "y"]) with
+    | .ok (.arr [.str "x", .obj [("id", .str "p0"), ("type", .str "VLeaf")],
+                 .obj [("id", .str "p1"), ("type", .str "VLeaf")], .str "y"]) => true
+    | _ => false) = true := by
+  decide +kernel
+
+example : parseRange "0:2" = some [0, 2] := by decide +kernel
 
 /-! ## comments -/
 section
